@@ -97,6 +97,9 @@ pxgstrf_pruneL(
 		            * 	interchange the two subscripts
 			    */
 		        ktemp = lsub[kmin];
+#ifdef SLU_MT_VERIF
+			SLU_MT_VERIF_EVENT(SLUV_PRUNE_STEP, -1, irep, 3, jcol, Glu);
+#endif
 		        lsub[kmin] = lsub[kmax];
 		        lsub[kmax] = ktemp;
 		        kmin++;
